@@ -1,50 +1,504 @@
+mod common;
 mod exec;
 mod sched;
+mod storesim;
 
-use sched::{SchedSpec, Mode};
-use similari::prelude::*;
-use similari::trackers::tracker_api::TrackerAPI;
+use common::*;
+use sched::{mix, Mode, SchedSpec};
+use serde_json::{json, Value};
+use std::collections::{BTreeMap, BTreeSet, HashSet};
+use std::sync::atomic::{AtomicBool, AtomicU64, Ordering::SeqCst};
 use std::sync::{Arc, Mutex};
+use std::time::Instant;
 
-fn smoke(seed: u64, hash_seed: u64, shards: usize) -> (u64, u64, u64, Option<exec::Abort>, String) {
-    let out = Arc::new(Mutex::new(String::new()));
-    let o2 = out.clone();
-    let r = exec::execute(
-        exec::ExecCfg { sched: SchedSpec::swarm(seed, 2 * shards as u32), hash_seed, keep_events: false, record_trace: true, max_steps: 300_000 },
-        move || {
-            let mut t = Sort::new(shards, 5, 2, PositionalMetricType::IoU(0.3), 0.05, None, 1.0/20.0, 1.0/160.0);
-            let mut s = String::new();
-            for e in 0..6 {
-                let dets: Vec<_> = (0..4).map(|i| (BoundingBox::new(10.0 * i as f32 + e as f32, 5.0, 8.0, 12.0).as_xyaah(), Some(i as i64))).collect();
-                let res = t.predict(&dets);
-                for r in res { s.push_str(&format!("{}:{}:{} ", r.id, r.length, r.epoch)); }
+const DEFAULT_SEED: u64 = 20261002;
+
+fn engine_for(prop: &str) -> Option<Box<dyn Engine>> {
+    match prop {
+        "C09" => Some(Box::new(storesim::StoreEngine { prop: "C09" })),
+        "C10" => Some(Box::new(storesim::StoreEngine { prop: "C10" })),
+        "C11" => Some(Box::new(storesim::StoreEngine { prop: "C11" })),
+        _ => None,
+    }
+}
+
+fn verif_dir() -> String {
+    std::env::var("VERIF_DIR").unwrap_or_else(|_| "/verif".to_string())
+}
+
+#[derive(Clone)]
+struct Found {
+    index: u64,
+    case_seed: u64,
+    case: Value,
+    plan: SchedPlan,
+    violation: Violation,
+}
+
+struct Known {
+    sigs: Vec<(String, String, String)>, // (property, signature prefix, text)
+}
+
+fn load_known() -> Known {
+    let p = format!("{}/known_findings.json", verif_dir());
+    let mut sigs = vec![];
+    if let Ok(s) = std::fs::read_to_string(&p) {
+        if let Ok(v) = serde_json::from_str::<Value>(&s) {
+            if let Some(a) = v["known"].as_array() {
+                for k in a {
+                    sigs.push((
+                        k["property"].as_str().unwrap_or("").to_string(),
+                        k["signature"].as_str().unwrap_or("").to_string(),
+                        k["what"].as_str().unwrap_or("").to_string(),
+                    ));
+                }
             }
-            t.skip_epochs(5);
-            let w = t.wasted();
-            let mut ids: Vec<u64> = w.iter().map(|x| x.get_track_id()).collect();
-            let hm: std::collections::HashMap<u64,u64> = (0..8).map(|i| (i, i)).collect();
-            s.push_str(&format!("| hm {:?}", hm.keys().collect::<Vec<_>>()));
-            s.push_str(&format!("| wasted-order {:?}", ids));
-            ids.sort();
-            *o2.lock().unwrap() = s;
-        },
-    );
-    let s = out.lock().unwrap().clone();
-    (r.steps, r.ilv_hash, r.context_switches, r.abort, s)
+        }
+    }
+    Known { sigs }
+}
+
+impl Known {
+    fn lookup(&self, v: &Violation) -> Option<&(String, String, String)> {
+        let s = v.sig();
+        self.sigs.iter().find(|(p, sig, _)| *p == v.property && *sig == s)
+    }
+}
+
+fn plan_for(case_seed: u64) -> SchedPlan {
+    SchedPlan::seeded(mix(case_seed, 0x77))
+}
+
+struct Agg {
+    stats: Stats,
+    evals: u64,
+    nontrivial_hashes: HashSet<u64>,
+    ilv: HashSet<u64>,
+    samples: Vec<Value>,
+    found: Option<Found>,
+    known_hits: BTreeMap<String, (String, u64)>,
+    diverged: u64,
+    calm_runs: u64,
+}
+
+fn eval_hash(o: &Outcome) -> u64 {
+    let mut h = 0x9e37u64;
+    for x in &o.stats.ilv_hashes {
+        h = mix(h, *x);
+    }
+    h
+}
+
+fn run_batch(engine: &dyn Engine, seed: u64, runs: u64, thorough: bool, threads: usize, known: &Known, deadline: Option<Instant>) -> Agg {
+    let next = AtomicU64::new(0);
+    let stop_after = AtomicU64::new(u64::MAX);
+    let timed_out = AtomicBool::new(false);
+    let agg = Mutex::new(Agg {
+        stats: Stats::default(),
+        evals: 0,
+        nontrivial_hashes: HashSet::new(),
+        ilv: HashSet::new(),
+        samples: vec![],
+        found: None,
+        known_hits: BTreeMap::new(),
+        diverged: 0,
+        calm_runs: 0,
+    });
+    std::thread::scope(|s| {
+        for _ in 0..threads {
+            s.spawn(|| loop {
+                let i = next.fetch_add(1, SeqCst);
+                if i >= runs || i > stop_after.load(SeqCst) {
+                    break;
+                }
+                if let Some(d) = deadline {
+                    if Instant::now() > d {
+                        timed_out.store(true, SeqCst);
+                        break;
+                    }
+                }
+                let case_seed = mix(seed, i);
+                let case = engine.gen(case_seed, thorough);
+                let plan = plan_for(case_seed);
+                let out = engine.run(&case, &plan);
+                let mut a = agg.lock().unwrap();
+                a.evals += 1;
+                a.stats.merge(&out.stats);
+                if case["calm"].as_bool().unwrap_or(false) {
+                    a.calm_runs += 1;
+                }
+                for h in &out.stats.ilv_hashes {
+                    a.ilv.insert(*h);
+                }
+                if out.stats.nontrivial {
+                    let h = eval_hash(&out);
+                    a.nontrivial_hashes.insert(h);
+                }
+                if out.diverged {
+                    a.diverged += 1;
+                }
+                if a.samples.len() < 2 && (i == 0 || (out.stats.nontrivial && i % 97 == 13)) {
+                    a.samples.push(json!({
+                        "run_index": i, "case_seed": case_seed, "case": case,
+                        "schedules": out.execs.iter().map(|e| serde_json::to_value(&e.spec).unwrap()).collect::<Vec<_>>(),
+                        "scheduler_steps": out.execs.iter().map(|e| e.steps).collect::<Vec<_>>(),
+                        "verdict": out.violation.as_ref().map(|v| v.sig()).unwrap_or_else(|| "held".into()),
+                    }));
+                }
+                if let Some(v) = out.violation {
+                    if let Some((_, _, what)) = known.lookup(&v) {
+                        let e = a.known_hits.entry(v.sig()).or_insert((what.clone(), 0));
+                        e.1 += 1;
+                    } else {
+                        let better = a.found.as_ref().map(|f| i < f.index).unwrap_or(true);
+                        if better {
+                            a.found = Some(Found { index: i, case_seed, case, plan, violation: v });
+                        }
+                        let cur = stop_after.load(SeqCst);
+                        if i < cur {
+                            stop_after.store(i, SeqCst);
+                        }
+                    }
+                }
+            });
+        }
+    });
+    let mut a = agg.into_inner().unwrap();
+    if timed_out.load(SeqCst) {
+        a.stats.probe("batch_stopped_at_wall_clock_cap", 1);
+    }
+    a
+}
+
+/// Greedy structural shrinking of the workload, keeping the violation signature.
+/// A candidate is accepted if the same signature shows under the original schedule
+/// seed or under one of a few fresh ones (editing the workload shifts scheduling points).
+fn minimise(engine: &dyn Engine, f: &Found, budget_s: f64) -> Found {
+    let t0 = Instant::now();
+    let sig = f.violation.sig();
+    let mut cur = f.clone();
+    let mut tries = 0u64;
+    'outer: loop {
+        if t0.elapsed().as_secs_f64() > budget_s {
+            break;
+        }
+        let cands = engine.shrink(&cur.case);
+        for c in cands {
+            if t0.elapsed().as_secs_f64() > budget_s {
+                break 'outer;
+            }
+            for alt in 0..6u64 {
+                let mut plan = cur.plan.clone();
+                plan.explicit.clear();
+                if alt > 0 {
+                    plan.seed = mix(cur.plan.seed, alt);
+                    plan.hash_seed = mix(cur.plan.hash_seed, alt);
+                }
+                tries += 1;
+                let out = engine.run(&c, &plan);
+                if let Some(v) = out.violation {
+                    if v.sig() == sig {
+                        cur = Found { index: f.index, case_seed: f.case_seed, case: c.clone(), plan, violation: v };
+                        continue 'outer;
+                    }
+                }
+            }
+        }
+        break;
+    }
+    eprintln!("minimiser: {tries} re-executions in {:.1}s", t0.elapsed().as_secs_f64());
+    cur
+}
+
+/// Rewrite each execution's schedule as run-to-block plus forced switches and remove
+/// forced switches while the signature persists.
+fn minimise_schedule(engine: &dyn Engine, f: &Found, budget_s: f64) -> (Found, Vec<ExecRecord>) {
+    let t0 = Instant::now();
+    let sig = f.violation.sig();
+    let mut plan = f.plan.clone();
+    plan.keep_trace = true;
+    let out = engine.run(&f.case, &plan);
+    let same = out.violation.as_ref().map(|v| v.sig() == sig).unwrap_or(false);
+    if !same {
+        return (f.clone(), out.execs);
+    }
+    let mut specs: Vec<Option<SchedSpec>> = out
+        .execs
+        .iter()
+        .map(|e| {
+            let forced: Vec<(u32, u32)> = e
+                .trace
+                .iter()
+                .zip(e.defaults.iter())
+                .enumerate()
+                .filter(|(_, (t, d))| t != d)
+                .map(|(i, (t, _))| (i as u32, *t))
+                .collect();
+            Some(SchedSpec { seed: e.spec.seed, mode: Mode::Overrides { forced } })
+        })
+        .collect();
+    let check = |specs: &Vec<Option<SchedSpec>>| -> Option<Outcome> {
+        let mut p = plan.clone();
+        p.explicit = specs.clone();
+        let o = engine.run(&f.case, &p);
+        if o.violation.as_ref().map(|v| v.sig() == sig).unwrap_or(false) {
+            Some(o)
+        } else {
+            None
+        }
+    };
+    let mut best_out = match check(&specs) {
+        Some(o) => o,
+        None => return (f.clone(), out.execs), // override form does not reproduce: keep seeded form
+    };
+    for k in 0..specs.len() {
+        let mut forced = match &specs[k] {
+            Some(SchedSpec { mode: Mode::Overrides { forced }, .. }) => forced.clone(),
+            _ => continue,
+        };
+        let mut chunk = (forced.len() / 2).max(1);
+        while !forced.is_empty() && t0.elapsed().as_secs_f64() < budget_s {
+            let mut i = 0;
+            let mut removed_any = false;
+            while i < forced.len() && t0.elapsed().as_secs_f64() < budget_s {
+                let end = (i + chunk).min(forced.len());
+                let mut trial = forced.clone();
+                trial.drain(i..end);
+                let mut s2 = specs.clone();
+                s2[k] = Some(SchedSpec { seed: 0, mode: Mode::Overrides { forced: trial.clone() } });
+                if let Some(o) = check(&s2) {
+                    forced = trial;
+                    specs = s2;
+                    best_out = o;
+                    removed_any = true;
+                } else {
+                    i = end;
+                }
+            }
+            if chunk == 1 && !removed_any {
+                break;
+            }
+            chunk = (chunk / 2).max(1);
+        }
+    }
+    let mut g = f.clone();
+    g.plan.explicit = specs;
+    g.plan.keep_trace = true;
+    if let Some(v) = &best_out.violation {
+        g.violation = v.clone();
+    }
+    (g, best_out.execs)
+}
+
+fn write_replay(prop: &str, seed: u64, f: &Found, execs: &[ExecRecord], original: &Found) -> String {
+    let dir = format!("{}/replays", verif_dir());
+    let _ = std::fs::create_dir_all(&dir);
+    let body = json!({
+        "property": prop,
+        "verif_seed": seed,
+        "run_index": f.index,
+        "case_seed": f.case_seed,
+        "signature": f.violation.sig(),
+        "message": f.violation.msg,
+        "case": f.case,
+        "plan": serde_json::to_value(&f.plan).unwrap(),
+        "expected_traces": execs.iter().map(|e| e.trace.clone()).collect::<Vec<_>>(),
+        "forced_switches": execs.iter().map(|e| match &e.spec.mode { Mode::Overrides{forced} => json!(forced), m => serde_json::to_value(m).unwrap() }).collect::<Vec<_>>(),
+        "original_case_ops_hint": original.case.to_string().len(),
+        "minimised_case_ops_hint": f.case.to_string().len(),
+    });
+    let text = serde_json::to_string_pretty(&body).unwrap();
+    let h = mix(0x51, text.len() as u64 ^ sched::mix(7, text.bytes().fold(0u64, |a, b| a.wrapping_mul(131).wrapping_add(b as u64))));
+    let path = format!("{dir}/{prop}-{seed}-{:08x}.json", h as u32);
+    std::fs::write(&path, text).expect("write replay");
+    path
+}
+
+fn replay(path: &str) -> i32 {
+    let text = match std::fs::read_to_string(path) {
+        Ok(t) => t,
+        Err(e) => {
+            eprintln!("cannot read replay file {path}: {e}");
+            return 2;
+        }
+    };
+    let v: Value = serde_json::from_str(&text).expect("replay json");
+    let prop = v["property"].as_str().unwrap().to_string();
+    let engine = engine_for(&prop).expect("engine");
+    let mut plan: SchedPlan = serde_json::from_value(v["plan"].clone()).expect("plan");
+    plan.keep_trace = true;
+    let out = engine.run(&v["case"], &plan);
+    let expected: Vec<Vec<u32>> = serde_json::from_value(v["expected_traces"].clone()).unwrap_or_default();
+    let got: Vec<Vec<u32>> = out.execs.iter().map(|e| e.trace.clone()).collect();
+    let same_schedule = expected == got;
+    println!("replay: property={prop} executions={} scheduler_steps={:?} schedule_identical_to_recording={same_schedule}",
+        got.len(), got.iter().map(|t| t.len()).collect::<Vec<_>>());
+    match out.violation {
+        Some(viol) => {
+            println!("replay: violation signature {}", viol.sig());
+            println!("replay: {}", viol.msg);
+            if viol.sig() == v["signature"].as_str().unwrap_or("") {
+                println!("VIOLATION property={prop} replay={path}");
+                1
+            } else {
+                println!("replay: DIFFERENT signature than recorded ({})", v["signature"]);
+                println!("VIOLATION property={prop} replay={path}");
+                1
+            }
+        }
+        None => {
+            println!("replay: the recorded violation does not occur on the current tree (schedule identical: {same_schedule})");
+            0
+        }
+    }
+}
+
+fn arg_val(args: &[String], name: &str) -> Option<String> {
+    args.iter().position(|a| a == name).and_then(|i| args.get(i + 1).cloned())
 }
 
 fn main() {
     let args: Vec<String> = std::env::args().collect();
-    let n: u64 = args.get(1).map(|s| s.parse().unwrap()).unwrap_or(5);
-    let t0 = std::time::Instant::now();
-    for seed in 0..n {
-        let a = smoke(seed, seed * 7 + 1, 3);
-        let b = smoke(seed, seed * 7 + 1, 3);
-        if n <= 10 { println!("{seed}: {:?} {:?}", a, SchedSpec::swarm(seed, 6).mode); }
-        assert_eq!(format!("{:?}", a), format!("{:?}", b), "nondeterminism at seed {seed}");
-        let c = smoke(seed, seed * 7 + 2, 3);
-        if n <= 10 { println!("   other hash seed: {}", c.4); }
+    let cmd = args.get(1).map(|s| s.as_str()).unwrap_or("");
+    exec::install_quiet_hook();
+    let code = match cmd {
+        "run" => cmd_run(&args),
+        "replay" => replay(args.get(2).expect("replay <file>")),
+        "digest" => cmd_digest(&args),
+        _ => {
+            eprintln!("usage: simcheck run --property C09 --tier quick|thorough [--runs N] | replay <file> | digest --property C09 --runs N");
+            2
+        }
+    };
+    std::process::exit(code);
+}
+
+/// print one line per run (index, verdict, interleaving hashes): used by the
+/// determinism self-test, which diffs the output of separate processes
+fn cmd_digest(args: &[String]) -> i32 {
+    let prop = arg_val(args, "--property").expect("--property");
+    let engine = engine_for(&prop).expect("unknown property");
+    let runs: u64 = arg_val(args, "--runs").map(|s| s.parse().unwrap()).unwrap_or(200);
+    let seed: u64 = std::env::var("VERIF_SEED").ok().and_then(|s| s.parse().ok()).unwrap_or(DEFAULT_SEED);
+    let threads: usize = std::env::var("SIM_THREADS").ok().and_then(|s| s.parse().ok()).unwrap_or(16);
+    let lines = Mutex::new(BTreeMap::new());
+    let next = AtomicU64::new(0);
+    std::thread::scope(|s| {
+        for _ in 0..threads {
+            s.spawn(|| loop {
+                let i = next.fetch_add(1, SeqCst);
+                if i >= runs {
+                    break;
+                }
+                let case_seed = mix(seed, i);
+                let case = engine.gen(case_seed, false);
+                let out = engine.run(&case, &plan_for(case_seed));
+                let line = format!(
+                    "{i} {} steps={} ilv={:?}",
+                    out.violation.as_ref().map(|v| v.sig()).unwrap_or_else(|| "held".into()),
+                    out.stats.steps,
+                    out.stats.ilv_hashes
+                );
+                lines.lock().unwrap().insert(i, line);
+            });
+        }
+    });
+    for (_, l) in lines.into_inner().unwrap() {
+        println!("{l}");
     }
-    println!("ok {} runs in {:?}", n * 3, t0.elapsed());
-    let _ = Mode::Uniform;
+    0
+}
+
+fn cmd_run(args: &[String]) -> i32 {
+    let prop = arg_val(args, "--property").expect("--property");
+    let tier = arg_val(args, "--tier")
+        .or_else(|| std::env::var("VERIF_TIER").ok())
+        .unwrap_or_else(|| "quick".into());
+    let thorough = tier == "thorough";
+    let seed: u64 = std::env::var("VERIF_SEED").ok().and_then(|s| s.parse().ok()).unwrap_or(DEFAULT_SEED);
+    let threads: usize = std::env::var("SIM_THREADS").ok().and_then(|s| s.parse().ok()).unwrap_or(16);
+    let Some(engine) = engine_for(&prop) else {
+        eprintln!("no engine for property {prop}");
+        return 2;
+    };
+    let runs: u64 = arg_val(args, "--runs").map(|s| s.parse().unwrap()).unwrap_or_else(|| engine.runs(thorough));
+    let cap_s: Option<f64> = arg_val(args, "--max-seconds").map(|s| s.parse().unwrap());
+    let known = load_known();
+    println!("simcheck: property={prop} tier={tier} VERIF_SEED={seed} runs={runs} threads={threads}");
+    let t0 = Instant::now();
+    let deadline = cap_s.map(|s| t0 + std::time::Duration::from_secs_f64(s));
+    let agg = run_batch(engine.as_ref(), seed, runs, thorough, threads, &known, deadline);
+    let wall = t0.elapsed().as_secs_f64();
+    let mut violations = 0;
+    let mut replay_path = None;
+    let mut viol_json = Value::Null;
+    for (sig, (what, n)) in &agg.known_hits {
+        println!("KNOWN-FINDING: property={prop} {what} [signature {sig}, seen in {n} runs]");
+    }
+    if let Some(f) = &agg.found {
+        violations = 1;
+        eprintln!("violation at run {} (case seed {}): {} — minimising", f.index, f.case_seed, f.violation.sig());
+        let m = minimise(engine.as_ref(), f, if thorough { 120.0 } else { 40.0 });
+        let (m2, execs) = minimise_schedule(engine.as_ref(), &m, if thorough { 60.0 } else { 20.0 });
+        let path = write_replay(&prop, seed, &m2, &execs, f);
+        println!("violation: {}", m2.violation.sig());
+        println!("violation: {}", m2.violation.msg.chars().take(1500).collect::<String>());
+        println!("VIOLATION property={prop} replay={path}");
+        viol_json = json!({"signature": m2.violation.sig(), "message": m2.violation.msg.chars().take(800).collect::<String>(), "run_index": f.index, "replay": path});
+        replay_path = Some(path);
+    }
+    let _ = replay_path;
+    // evidence
+    let st = &agg.stats;
+    let distinct_nontrivial = agg.nontrivial_hashes.len() as u64;
+    let ev = json!({
+        "property_id": prop,
+        "tier": if thorough { "thorough" } else { "quick" },
+        "seed": seed,
+        "level": engine.level(),
+        "wall_s": wall,
+        "violations": violations,
+        "coverage": {
+            "evaluations": agg.evals,
+            "distinct_nontrivial": distinct_nontrivial,
+            "rule": engine.rule(),
+            "samples": agg.samples,
+            "simulated_executions": st.execs,
+            "runs_per_hour": (agg.evals as f64 / wall.max(1e-9) * 3600.0) as u64,
+            "seeds_per_hour": (agg.evals as f64 / wall.max(1e-9) * 3600.0) as u64,
+            "simulated_time": { "scheduler_steps": st.steps, "operations": st.ops, "epochs": st.epochs,
+                                 "note": "the library has no wall clock; simulated time is scheduler steps, API operations and tracker epochs" },
+            "context_switches": st.context_switches,
+            "scheduler_random_values_served": st.randoms,
+            "channel_and_op_events": st.events,
+            "max_simulated_tasks": st.max_tasks,
+            "distinct_interleavings": agg.ilv.len(),
+            "interleaving_measure": "distinct 64-bit hashes of the per-execution sequence (task id, event kind, /repo source line) over channel create/send/recv/block/disconnect and operation invoke/return events in global order",
+            "faults_injected_fired": st.faults,
+            "fault_free_runs": agg.calm_runs,
+            "reach_probes": st.probes,
+            "known_findings_seen": agg.known_hits.iter().map(|(k, (_, n))| (k.clone(), *n)).collect::<BTreeMap<_, _>>(),
+            "violation": viol_json,
+            "components": {
+                "real": ["all of /repo/src (current working tree, --cfg similari_verif)", "nalgebra", "pathfinding", "geo", "itertools", "rayon"],
+                "modelled": ["std threads / Mutex / RwLock / Condvar (shuttle 0.9.3)", "crossbeam channels (FIFO model, /verif/shims/crossbeam)", "rand::thread_rng (scheduler-fed)", "process entropy for HashMap RandomState (seeded getrandom)"],
+                "absent": ["python bindings (feature off)"]
+            },
+            "exhaustive": false
+        },
+        "assumptions": engine.assumptions(),
+    });
+    let dir = format!("{}/evidence", verif_dir());
+    let _ = std::fs::create_dir_all(&dir);
+    std::fs::write(format!("{dir}/{prop}.json"), serde_json::to_string_pretty(&ev).unwrap()).expect("write evidence");
+    println!(
+        "simcheck: {} evaluations, {} simulated executions, {} steps, {} distinct interleavings ({} non-trivial), {:.1}s, violations={}",
+        agg.evals, st.execs, st.steps, agg.ilv.len(), distinct_nontrivial, wall, violations
+    );
+    let _ = BTreeSet::<u8>::new();
+    if violations > 0 {
+        1
+    } else {
+        0
+    }
 }
